@@ -4,7 +4,7 @@
    multi-index -> K; rho / expec / sandwich are the constructions of
    C13/Model.v, the very functions the correspondence executes over Z[i]. *)
 From Coq Require Import ZArith Arith List Bool Ring PeanoNat.
-From QV Require Import Base.Sums Base.TN Base.TNExec C13.Model C13.Proofs C13.Network.
+From QV Require Import Base.Sums Base.TN Base.TNExec C13.Model C13.Proofs C13.Network C13.Options.
 Import ListNotations.
 
 Section C13.
@@ -82,6 +82,25 @@ Section C13.
     expec K k0 kadd kmul conj (psi_ij K psi2 d2) (d1 * d2) dr (kron_op K kmul d2 A B)
     = expec K k0 kadd kmul conj (psi_ji K psi2 d1) (d2 * d1) dr (kron_op K kmul d1 B A).
   Proof. exact (expec_product_swap K k0 k1 kadd kmul ksub kopp Kring conj). Qed.
+
+  (* a state with an overall factor c (quimb: 10^exponent, or a factor multiplied into the
+     tensors): every unnormalised reduced density matrix / expectation carries c * conj c,
+     so the factor must be counted exactly once per layer, and the normalised value
+     <O>/<1> (cross-multiplied) does not depend on it *)
+  Theorem C13_scaled_state_rdm : forall (psi : nat -> nat -> K) dr c k b,
+    rho K k0 kadd kmul conj (fun k r => kmul c (psi k r)) dr k b
+    = kmul (kmul c (conj c)) (rho K k0 kadd kmul conj psi dr k b).
+  Proof. exact (rho_scale K k0 k1 kadd kmul ksub kopp Kring conj conj_mul). Qed.
+
+  Theorem C13_scaled_state_expectation : forall (psi : nat -> nat -> K) dk dr c O,
+    expec K k0 kadd kmul conj (fun k r => kmul c (psi k r)) dk dr O
+    = kmul (kmul c (conj c)) (expec K k0 kadd kmul conj psi dk dr O).
+  Proof. exact (expec_scale K k0 k1 kadd kmul ksub kopp Kring conj conj_mul). Qed.
+
+  Theorem C13_normalised_value_scale_independent : forall (psi : nat -> nat -> K) dk dr c O,
+    kmul (expec K k0 kadd kmul conj (fun k r => kmul c (psi k r)) dk dr O) (tr_rho K k0 kadd kmul conj psi dk dr)
+    = kmul (expec K k0 kadd kmul conj psi dk dr O) (tr_rho K k0 kadd kmul conj (fun k r => kmul c (psi k r)) dk dr).
+  Proof. exact (normalised_value_scale_independent K k0 k1 kadd kmul ksub kopp Kring conj conj_mul). Qed.
 End C13.
 
 Print Assumptions C13_rdm_hermitian.
@@ -95,6 +114,104 @@ Print Assumptions C13_expectation_of_adjoint.
 Print Assumptions C13_rdm_site_order.
 Print Assumptions C13_expectation_site_order.
 Print Assumptions C13_product_operator_site_order.
+Print Assumptions C13_scaled_state_rdm.
+Print Assumptions C13_scaled_state_expectation.
+Print Assumptions C13_normalised_value_scale_independent.
+
+(* ---- option flow and scale bookkeeping of the cluster / loop-expansion routes (C13/Options.v) ---- *)
+
+(* local_expectation_cluster / compute_local_expectation_cluster: whichever backend the
+   `max_bond` switch selects (exact or compressed contraction of the cluster), the caller's
+   normalized in {True, False} decides between <G>/<1> and <G> *)
+Theorem C13_cluster_dispatch_forwards_normalisation : forall (max_bond : bool) (nz : nmode),
+  bool_mode nz = true -> cluster_route max_bond nz = requested nz.
+Proof. exact cluster_route_forwards. Qed.
+Print Assumptions C13_cluster_dispatch_forwards_normalisation.
+
+Theorem C13_partial_trace_cluster_forwards_normalisation : forall nz,
+  (bool_mode nz = true \/ nz = NReturn) -> partial_trace_cluster_route nz = requested nz.
+Proof. exact partial_trace_cluster_forwards. Qed.
+Print Assumptions C13_partial_trace_cluster_forwards_normalisation.
+
+(* loop expansions: every documented (combine, normalized) pair returns what was requested -
+   True / "prod" / "local" / "separate" (/ "global" for compute_local_expectation_gloop_expand)
+   a ratio, False the raw value; the only rejected pairs are combine="sum" with "return" / "global" *)
+Theorem C13_loop_expansion_mode_table : forall (csum : bool) (nz : nmode),
+  (expansion_mode nz = true -> expand_route csum nz = requested nz)
+  /\ ((expansion_mode nz = true \/ nz = NGlobal) -> compute_gloop_route csum nz = requested nz)
+  /\ (expand_route csum nz = Rejected <-> (csum = true /\ (nz = NReturn \/ nz = NGlobal))).
+Proof.
+  exact (fun csum nz => conj (expand_route_spec csum nz)
+                             (conj (compute_gloop_route_spec csum nz) (expand_route_rejects csum nz))).
+Qed.
+Print Assumptions C13_loop_expansion_mode_table.
+
+Section C13opt.
+  Variable K : Type.
+  Variables (k0 k1 : K) (kadd kmul ksub : K -> K -> K) (kopp : K -> K).
+  Hypothesis Kring : ring_theory k0 k1 kadd kmul ksub kopp eq.
+
+  (* _combine_expansion_expectations over ANY commutative ring, values as fractions num/den:
+     for ANY list of regions whose counts sum to 1 and whose contractions all are (E, N) - in
+     particular the single region spanning the network - every documented combine x normalized
+     mode yields E/N (cross-multiplied equality), resp. E for normalized=False *)
+  Theorem C13_expansion_combine_exact_for_uniform_regions : forall (E N : K) csum nz rs,
+    expansion_mode nz = true ->
+    Forall (fun r => re K r = E /\ rn K r = N) rs ->
+    fold_right Z.add 0%Z (map (rC K) rs) = 1%Z ->
+    exists f, combine_value K k0 k1 kadd kmul kopp csum nz rs = Some f
+              /\ feq K kmul f (if truthy nz then Frac K E N else Frac K E k1).
+  Proof. exact (combine_exact_for_uniform_regions K k0 k1 kadd kmul ksub kopp Kring). Qed.
+
+  (* where the scale is held: (tensor factor t, exponent register x) denotes t * 10^x * psi0 *)
+  Variable pow10 : Z -> K.
+  Hypothesis pow10_0 : pow10 0%Z = k1.
+
+  (* normalized="global": divide by nfactor, MOVE THE REGISTER INTO THE TENSORS, then contract
+     sub-networks unnormalised: with nfactor^2 = <psi|psi> the result times <psi|psi> is <psi|G|psi> *)
+  Theorem C13_global_normalisation_distributes_exponent : forall (E0 N0 c : K) (s : net K),
+    kmul (kmul c c) (contract K kmul pow10 N0 s) = k1 ->
+    kmul (contract K kmul pow10 E0 (subnet K (global_prepare K kmul pow10 c s))) (contract K kmul pow10 N0 s)
+    = contract K kmul pow10 E0 s.
+  Proof. exact (global_normalisation_sound K k0 k1 kadd kmul ksub kopp Kring pow10 pow10_0). Qed.
+
+  (* and the step is necessary: without it the terms are off by exactly (10^x)^2 *)
+  Theorem C13_global_without_distribution_off_by_exponent : forall (E0 c : K) (s : net K),
+    kmul (contract K kmul pow10 E0 (subnet K (smul K kmul c s))) (kmul (pow10 (expo K s)) (pow10 (expo K s)))
+    = contract K kmul pow10 E0 (smul K kmul c s).
+  Proof. exact (global_without_distribution_off_by_exponent K k0 k1 kadd kmul ksub kopp Kring pow10 pow10_0). Qed.
+
+  (* any unnormalised value read off a selected sub-network misses the register twice ... *)
+  Theorem C13_subnetwork_unnormalised_off_by_exponent : forall (E0 : K) (s : net K),
+    kmul (contract K kmul pow10 E0 (subnet K s)) (kmul (pow10 (expo K s)) (pow10 (expo K s)))
+    = contract K kmul pow10 E0 s.
+  Proof. exact (subnet_unnormalised_off_by_exponent K k0 k1 kadd kmul ksub kopp Kring pow10 pow10_0). Qed.
+
+  (* ... while any ratio read off it is independent of where the scale is held *)
+  Theorem C13_subnetwork_ratio_exponent_independent : forall (E0 N0 : K) (s : net K),
+    kmul (contract K kmul pow10 E0 (subnet K s)) (contract K kmul pow10 N0 s)
+    = kmul (contract K kmul pow10 E0 s) (contract K kmul pow10 N0 (subnet K s)).
+  Proof. exact (subnet_ratio_exponent_independent K k0 k1 kadd kmul ksub kopp Kring pow10). Qed.
+End C13opt.
+
+Print Assumptions C13_expansion_combine_exact_for_uniform_regions.
+Print Assumptions C13_global_normalisation_distributes_exponent.
+Print Assumptions C13_global_without_distribution_off_by_exponent.
+Print Assumptions C13_subnetwork_unnormalised_off_by_exponent.
+Print Assumptions C13_subnetwork_ratio_exponent_independent.
+
+(* non-vacuity of the option / scale theorems over Z: three regions with counts 1, 1, -1 (two
+   loops and their intersection), every contraction (6, 4): prod gives 6^2*4 / (4^2*6) = 6/4;
+   a network (t, x) = (3, 2): 300 psi0, prepared with c = 1 its sub-networks see 300 *)
+Example C13_options_nonvacuous :
+  let rs := [Region Z 6 4 1; Region Z 6 4 1; Region Z 6 4 (-1)]%Z in
+  combine_value Z 0%Z 1%Z Z.add Z.mul Z.opp false NTrue rs = Some (Frac Z 144 96)%Z
+  /\ combine_value Z 0%Z 1%Z Z.add Z.mul Z.opp true NSeparate rs = Some (Frac Z 6 4)%Z
+  /\ combine_value Z 0%Z 1%Z Z.add Z.mul Z.opp true NGlobal rs = None
+  /\ scale Z Z.mul (fun x => 10 ^ x)%Z (subnet Z (z_global_prepare 1 (Net Z 3 2)))%Z = 300%Z
+  /\ scale Z Z.mul (fun x => 10 ^ x)%Z (subnet Z (Net Z 3 2))%Z = 3%Z
+  /\ register_after_global 3 2 = 0%Z.
+Proof. vm_compute. repeat split; reflexivity. Qed.
 
 (* ---- network level (Base/TN semantics) ----------------------------------------- *)
 Section C13net.
